@@ -62,6 +62,29 @@ def run(c):
     keys = {json.dumps(k["plan"], sort_keys=True) for k in cases}
     if len(keys) != len(cases):
         raise vlib.Inconclusive("generator: %d cases but %d distinct requests" % (len(cases), len(keys)))
+    # "with any supported compression": the machine treats the compression algorithm as a name and the payload as an opaque tag,
+    # so every generated request stands for its whole family of payload sizes and compression levels.  For the accepted,
+    # well-formed requests sent by the real exporters the family is sampled here as well: payloads of 300-900 KiB (beyond one
+    # block / the smallest window of every compressor) x the levels each algorithm accepts (seeded change C15-5: a decoder
+    # window smaller than what the exporter's encoder announces at level >= 3).  Same expected observation as the base case.
+    LEVELS = {"gzip": [1, 9], "zlib": [1, 9], "deflate": [6], "zstd": [1, 3, 6, 11]}
+    fam = []
+    seen = set()
+    for k in cases:
+        p = k["plan"]
+        if not (p["via"] == "exporter" and p["wellformed"] and p["method"] == "POST" and p["items"] != "zero" and p["auth"] != "bad"
+                and p["recv"] in ("off", "auth") and p["outcome"]["kind"] == "nil" and p["media"] in ("proto", "json")):
+            continue
+        sig = (p["transport"], p["media"], p["comp"], p["signal"] if not q else "")
+        if sig in seen:
+            continue
+        seen.add(sig)
+        fam.append(dict(k, plan=dict(p, big=True)))
+        if p["transport"] == "http":
+            for lv in LEVELS.get(p["comp"], []):
+                fam.append(dict(k, plan=dict(p, big=True, clevel=lv)))
+    c.extra["big_payload_level_family"] = len(fam)
+    cases = cases + fam
     c.rng.shuffle(cases)
 
     binp = c.go_build("otlphop", pkg="./cmd")
